@@ -57,7 +57,7 @@ def make_case(unit):
     sizes = [g.r.randint(2, 4) for _ in range(nparts)]
     facets = cases.random_facets(g, template, N, sizes=sizes, p_zero=0.15)
     tr = {}
-    which = [("rows",), ("cols",), ("rows", "cols"), ()][(j // len(WEIGHTS)) % 4]
+    which = [("rows",), ("cols",), ("rows", "cols"), ()][gen.stratum(ID, i, 1, 4)]
     if which:
         cases.attach_insertions(g, facets, tr, which=which, hide_some=False)
     w = g.weights(N, wmode)
